@@ -14,6 +14,7 @@ type TModel struct {
 	Unfinished bool // a body started in a build that died before acknowledging it
 	Env        string
 	Src        string
+	Code       string // the code (comments and blank lines aside) of the files that define T's function and the helpers it loads
 	SawLatest  map[string]bool // per dependency: the latest successful execution of T consumed D's latest one
 }
 
@@ -56,7 +57,7 @@ func (m Model) String() string {
 			ds = append(ds, fmt.Sprintf("%s=%v", d, s))
 		}
 		sort.Strings(ds)
-		fmt.Fprintf(&b, "%s{ran=%v failed=%v unfinished=%v env=%q src=%q saw=%v} ", k, t.Ran, t.Failed, t.Unfinished, t.Env, t.Src, ds)
+		fmt.Fprintf(&b, "%s{ran=%v failed=%v unfinished=%v env=%q src=%q code=%q saw=%v} ", k, t.Ran, t.Failed, t.Unfinished, t.Env, t.Src, t.Code, ds)
 	}
 	return b.String()
 }
@@ -130,6 +131,7 @@ func (m Model) apply(ev []Event, v Vars, after map[string]string) {
 			tm.Ran, tm.Failed, tm.Unfinished = true, false, false
 			tm.Env = v.env(e.Label)
 			tm.Src = v.srcs(e.Label, after)
+			tm.Code = v.codeText(e.Label)
 			for _, d := range v.deps(e.Label) {
 				tm.SawLatest[d] = true
 			}
